@@ -777,6 +777,9 @@ for w in ("0", "1", "2", "3"):
          replace=["cbor_build_ctrl", "cbor_build_float2", "cbor_build_float4", "cbor_build_float8"])
 COPY("DEF_BYTESTRING", replace=["cbor_build_bytestring"])
 COPY("DEF_STRING", replace=["cbor_build_stringn"])
+COPY("ARRAY", extra_defs=["COPY_ARRAY_DEFINITE"], suffix="_definite", loops="loops/copy.json", loop_fingerprint={"cbor_copy": 4},
+     replace=["cbor_array_get/cbor_array_get__hered", "cbor_move/cbor_move__hered", "cbor_new_definite_array/cbor_new_definite_array__copy", "cbor_new_indefinite_array",
+              "cbor_array_push", "cbor_decref/cbor_decref__owned"], mem_gb=20)
 COPY("TAG", replace=["cbor_tag_item/cbor_tag_item__hered", "cbor_move/cbor_move__hered", "cbor_build_tag", "cbor_decref/cbor_decref__owned"])
 
 # ------------------------------------------------------------------------------------------------
